@@ -227,6 +227,10 @@ class AsfPong(AsfMsg):
 class IpmiMsg(object):
     HEADER_FORMAT_NO_AUTH = '!BIIB'
     HEADER_FORMAT_AUTH = '!BII16BB'
+    # authentication types pack() can produce
+    SUPPORTED_AUTH_TYPES = (Session.AUTH_TYPE_NONE,
+                            Session.AUTH_TYPE_PASSWORD,
+                            Session.AUTH_TYPE_MD5)
 
     def __init__(self, session=None, ignore_sdu_length=False):
         self.session = session
@@ -529,7 +533,9 @@ class Rmcp(object):
 
         # 2 - Get Session Challenge
         log().debug('Get Session Challenge')
-        session.auth_type = caps.get_max_auth_type()
+        session.auth_type = caps.get_max_auth_type(IpmiMsg.SUPPORTED_AUTH_TYPES)
+        if session.auth_type is None:
+            raise NotSupportedError('no supported authentication type offered')
         rsp = self._get_session_challenge(session)
         session_challenge = rsp.challenge_string
         session.sid = rsp.temporary_session_id
